@@ -231,6 +231,59 @@ def oracle_parity(ctx, res, strings):
                                          "input": {"bases": bases, "negative": negative, "psi": fmt_state(psi)}})
 
 
+def oracle_parity_sequences(ctx, res, strings):
+    """Several parity measurements on ONE connection (the documented operator must not depend on
+    what was measured before): each step is judged like a single measurement, with the state the
+    previous step left behind as its input."""
+    from harness import pipeline_sv as P
+    tb = _tb()
+    rng = ctx.rng
+    n_seq = 60 if ctx.thorough else 14
+    multi = [b for b in strings if sum(c != "I" for c in b) >= 2] or list(strings)
+    for _ in range(n_seq):
+        n = rng.choice([2, 3])
+        pool = [b for b in multi if len(b) == n]
+        if not pool:
+            continue
+        steps = [(rng.choice(pool), rng.random() < 0.5, rng.randrange(2)) for _ in range(rng.choice([2, 3]))]
+        s = P.Session(simulate=True, max_qubits=10)
+        try:
+            qs = s.qubits(n)
+            psi = rand_state(rng, n)
+            s.set_state(psi)
+            for k, (bases, negative, forced) in enumerate(steps):
+                signed = (-1 if negative else 1) * pauli_matrix(bases)
+                before = len(s.ex.meas_probs)
+                proj_f = (np.eye(2 ** n) + (-1) ** forced * signed) / 2
+                # force the ancilla outcome that corresponds to the wanted parity if it is possible
+                s.ex.script = []
+                m = tb.parity_meas(qs, ("-" if negative else "") + bases)
+                s.flush()
+                res.evaluations += 1
+                res.count("oracle:parity-sequence-step")
+                res.nontrivial.add(("parity-seq", tuple(steps[:k + 1])))
+                m = int(m)
+                try:
+                    post = s.state()
+                except P.ExtraQubitsEntangled as exc:
+                    res.failures.append({"what": "parity_meas leaves the measured qubits entangled with a kept qubit",
+                                         "kf": None, "input": {"steps": steps[:k + 1], "detail": str(exc)}})
+                    break
+                want = ((np.eye(2 ** n) + (-1) ** m * signed) / 2) @ psi
+                p_want = float(np.vdot(want, want).real)
+                if p_want < 1e-12 or phase_dist(post, want / math.sqrt(p_want)) > 1e-8:
+                    res.failures.append({"what": "parity_meas does not measure the requested signed Pauli string "
+                                                 "when used repeatedly on one connection", "kf": None,
+                                         "input": {"steps": [list(x) for x in steps[:k + 1]], "psi": fmt_state(psi),
+                                                   "returned": m, "post_state": fmt_state(post),
+                                                   "probability_of_returned_outcome": p_want}})
+                    break
+                psi = post
+                del before, proj_f
+        finally:
+            s.close()
+
+
 # ------------------------------------------------------------------ correspondence
 
 def ev_json(e):
@@ -337,6 +390,7 @@ def run(ctx):
     oracle_gates(ctx, res)
     oracle_set_state(ctx, res)
     oracle_parity(ctx, res, short + (all_strings(4) + longer[:40] if ctx.thorough else longer[:6]))
+    oracle_parity_sequences(ctx, res, short)
     stream_parity_model(ctx, res, (short if ctx.thorough else short[::4]) + longer)
     stream_pullback(ctx, res, short + [s for s in longer if len(s) <= 4])
     return res
